@@ -35,6 +35,10 @@ CHECKS = {
    text="Two analyses per path. Amplitude: the real cyclepoint search on x and a*x with a symbolic a > 0 (tables proved identical), and the full table on x and a*x for a in {2^-20, 1/2, 2, 2^20} with the cyclepoint search cut (voltage features and band_amp proved multiplied by a, everything else and the labels identical; scale factors are pulled out of the z3 terms so ratios cancel exactly). Units: the whole pipeline on (x, fs, f_range) and (x, c*fs, c*f_range) with symbolic c > 0 and ratio-keyed neurodsp stubs (tables proved identical).",
    note="Trusted: models (witness-validated); relational stub contracts (filter/amplitude positively homogeneous, detector scale-free, all depend on f/fs only). Bounds in evidence.bounds. IEEE rounding is outside (the statement itself restricts to powers of two).",
    ref="4 C10"),
+ 'C14': dict(
+   text="One inductive step instead of history enumeration: from symbolic settings (threshold values, min_n_cycles, reductions as z3 variables) the constructor is proved to store exactly its arguments with shorthand names expanded; fit is proved to call compute_features with exactly the stored settings, to store its result and to leave the option dictionaries value-equal; recompute_edges(r) is proved to hand over every *_threshold lowered by r without touching the stored thresholds; group models are proved to mirror df_features / sigs by position. Real-pipeline runs compare Bycycle.fit with compute_features and four explicit histories (fit/edit/refit, fit/recompute/refit, load/fit, fit A/fit B) with a fresh object on the same path.",
+   note="Trusted: models (witness-validated); stubs (same input -> same output); cyclepoint search cut to an arbitrary C01-conforming table in the real-pipeline steps. Histories longer than 3 steps are covered only through the invariant argument. Bounds in evidence.bounds.",
+   ref="4 C14"),
  'C15': dict(
    text="Each listed function is called for real on tracked argument objects with symbolic contents; a deep structural snapshot of every argument (arrays, nested option dicts, tables) is proved value-equal after the call (frame condition) and a second call on the very same objects is proved to return an equal result (repeatability) - one inductive step covering arbitrary call sequences that share argument objects.",
    note="Trusted: models' view/copy and pandas copy-on-write semantics (conformance + witness replay); stubs as in C01 (same input -> same output). Plot functions' frame conditions live in the C20 harness; detect_bursts_* are outside the statement's list. Bounds in evidence.bounds.",
